@@ -31,7 +31,14 @@ RULE = ("ops: mk (constructor, ints around 0 / 2^11 / 2^29 / 2^31 / 2^32 incl. n
         "has a history ('dec': BAM announcements, TP.DT packets, connection management, address claims, frames of the matrix, the received identifier "
         "itself, with and without the matrix) before it decodes the received identifier. Kept out (unchanged code raises, outside C09): a received "
         "TP.DT without a matrix frame of PGN 0xEB00 on a decoder that saw no BAM announcement (AttributeError bytes_left; an announcement is put "
-        "in front: jdec_guard), received PGNs only the bundled j1939.dbc knows with a length other than 8 or an empty signal (BUNDLED_LONG).")
+        "in front: jdec_guard), received PGNs only the bundled j1939.dbc knows with a length other than 8 or an empty signal (BUNDLED_LONG). "
+        "Matrix context stream ('ctx' in a 'resolve' / 'jdec' case; the driver judges frames and received identifier as before): the matrix is more "
+        "than its frames and is obtained through other paths of the public API - global attributes (ProtocolType J1939 / NMEA2000 / ISO11783 / "
+        "ExtendedCAN / empty ..., BusType, DBName, NmType) set before or after the frames are added or just before decoding, set and changed or "
+        "removed again, global attribute definitions with defaults, VFrameFormat frame attributes (agreeing with the frame kinds, on all or some "
+        "frames) with their definition, ECUs and transmitters, CAN FD frames beside the J1939 ones; the matrix is the one built through the API, "
+        "its deepcopy, the target of CanMatrix.merge, the result of dbc.dump + dbc.load, or read from a DBC text the harness writes itself "
+        "(BA_ \"ProtocolType\" \"...\", BA_ \"VFrameFormat\" BO_ ... 3). Which frame decodes a received identifier depends on the frames alone.")
 EXHAUSTIVE = {"quick": False, "thorough": False}
 PARTIAL = ["the payload decoding after frame resolution is C01's; here only which frame is chosen is compared"]
 ASSUMPTIONS = ["identifiers are Python ints, the extended flag a bool (the deprecated extended=None wildcard is outside the domain)"]
@@ -121,6 +128,9 @@ def gen(rng, tier, shard, nshards):
     # history stream: the same ops, the identifiers obtained through other paths of the public API, siblings modified, callers at work
     for _ in range({"quick": 12000, "thorough": 400000}[tier] // nshards):
         yield hist_case(rng)
+    # matrix context stream: the matrix carries more than frames (attributes, definitions, ECUs) and comes from other paths of the API
+    for _ in range({"quick": 6400, "thorough": 200000}[tier] // nshards):
+        yield ctx_case(rng)
 
 
 # ---------------------------------------------------------------------------------------------------------------------------------
@@ -419,9 +429,76 @@ def resolve_case(rng, sweep_pf=None):
     return {"op": "resolve", "c": {"frames": frames, "k": k}}
 
 
+# ---------------------------------------------------------------------------------------------------------------------------------
+# matrix context: what a matrix carries besides its frames, and the paths of the public API a matrix comes from
+# ---------------------------------------------------------------------------------------------------------------------------------
+PROTOCOLS = ["J1939", "J1939", "NMEA2000", "ISO11783", "ExtendedCAN", "StandardCAN", "CAN", "CANopen", "j1939", "J1939PG", "", "OBD", "ISO15765", "0"]
+GLOBAL_ATTRS = {"ProtocolType": PROTOCOLS, "BusType": ["CAN", "CAN FD", "J1939", ""], "DBName": ["net", "J1939", "CAN"],
+                "NmType": ["J1939", "OSEK", ""], "Manufacturer": ["Vector", ""]}
+LOADS = ["api", "api", "api", "deepcopy", "merge", "dbcdump", "dbctext", "dbctext"]
+VFF = ["StandardCAN", "ExtendedCAN", "reserved", "J1939PG", "reserved", "reserved", "reserved", "reserved", "reserved", "reserved", "reserved",
+       "reserved", "reserved", "reserved", "StandardCAN_FD", "ExtendedCAN_FD"]
+
+
+def rand_ctx(rng, frames):
+    load = rng.choice(LOADS)
+    attrs = []
+    names = []
+    if rng.random() < 0.75:
+        names.append("ProtocolType")
+    for _ in range(rng.choice([0, 0, 1, 2])):
+        names.append(rng.choice(sorted(GLOBAL_ATTRS)))
+    for n in names:
+        when = rng.choice(["before", "after", "after", "late"])
+        how = rng.choice(["set", "set", "set", "set", "dict", "changed", "removed"])
+        v = rng.choice(GLOBAL_ATTRS[n])
+        # "changed": the attribute had another value first; "removed": it was set and is taken away again; "dict": written into
+        # CanMatrix.attributes directly, as the readers do
+        attrs.append([when, n, v, how, rng.choice(GLOBAL_ATTRS[n])])
+    gdefs = []
+    for n in sorted(set(names) | ({"ProtocolType"} if rng.random() < 0.3 else set())):
+        if rng.random() < (0.85 if load == "dbctext" else 0.5) or load == "dbcdump":
+            gdefs.append([n, "STRING", rng.choice(GLOBAL_ATTRS[n] + [None, None])])
+    nfd = 0 if load == "dbcdump" or rng.random() < 0.7 else rng.choice([1, 1, 2])
+    fd = sorted(rng.sample(range(len(frames)), min(nfd, len(frames))))
+    if load == "dbctext":
+        # in a DBC file a frame is of one kind: J1939PG or CAN FD
+        fd = [x for x in fd if not frames[x][3]]
+    return {"load": load, "attrs": attrs, "gdefs": gdefs, "fattr": rng.choice([0, 0, 1, 1, 2]), "ecus": rng.choice([0, 0, 1, 3]), "fd": fd}
+
+
+def with_ctx(rng, case):
+    c = case["c"]
+    c["ctx"] = rand_ctx(rng, c["frames"])
+    return case
+
+
+def ctx_case(rng):
+    x = rng.random()
+    if x < 0.55:
+        case = resolve_case(rng)
+    elif x < 0.8:
+        case = with_history(rng, resolve_case(rng))
+    elif x < 0.93:
+        case = jdec_case(rng)
+    else:
+        case = with_history(rng, jdec_case(rng))
+    return with_ctx(rng, case)
+
+
 def neighbours(case, rng, shard, nshards):
     for _ in range(200 // nshards + 1):
-        if case["op"] == "resolve":
+        if case["op"] in ("resolve", "jdec") and case["c"].get("ctx"):
+            nb = ctx_case(rng)
+            if nb["op"] == case["op"]:
+                yield nb
+            # the same matrix and received identifier in another context, and the same context around another matrix
+            yield with_ctx(rng, {"op": case["op"], "c": {kk: vv for kk, vv in case["c"].items() if kk != "ctx"}})
+            other = resolve_case(rng) if case["op"] == "resolve" else jdec_case(rng)
+            other["c"]["ctx"] = dict(case["c"]["ctx"], fd=[x for x in case["c"]["ctx"].get("fd") or [] if x < len(other["c"]["frames"])
+                                                          and not (case["c"]["ctx"].get("load") == "dbctext" and other["c"]["frames"][x][3])])
+            yield other
+        elif case["op"] == "resolve":
             yield with_history(rng, resolve_case(rng)) if rng.random() < 0.5 else resolve_case(rng)
         elif case["op"] == "jdec":
             yield with_history(rng, jdec_case(rng)) if rng.random() < 0.5 else jdec_case(rng)
@@ -576,6 +653,130 @@ def run_history(db, c):
             pass
 
 
+def vff_of(ext, j, fd):
+    """the VFrameFormat text of a frame kind"""
+    return "J1939PG" if j else ("ExtendedCAN" if ext else "StandardCAN") + ("_FD" if fd else "")
+
+
+def set_global(db, a):
+    """one global attribute of the matrix: [when, name, value, how, other value]"""
+    _, name, v, how, other = a
+    if how == "changed":
+        db.add_attribute(name, other)
+        db.attribute(name)
+        db.add_attribute(name, v)
+    elif how == "removed":
+        db.add_attribute(name, v)
+        db.attribute(name)
+        db.attributes.pop(name, None)
+    elif how == "dict":
+        db.attributes[name] = v
+    else:
+        db.add_attribute(name, v)
+
+
+def dbc_text(c, size):
+    """the matrix of the case as a DBC file written by the harness (not by the exporter)"""
+    ctx = c["ctx"]
+    ecus = ["E%d" % n for n in range(ctx.get("ecus") or 0)]
+    fd = set(ctx.get("fd") or [])
+    out = ['VERSION ""', "", "NS_ :", "", "BS_:", "", "BU_: " + " ".join(ecus), ""]
+    for n, f in enumerate(c["frames"]):
+        name, i, ext = f[0], f[1], f[2]
+        out.append("BO_ %d %s: %d %s" % (i | (1 << 31) if ext else i, name, size, ecus[n % len(ecus)] if ecus else "Vector__XXX"))
+        out.append(' SG_ sig_%s : 0|8@1+ (1,0) [0|255] "" %s' % (name, ecus[-1] if ecus else "Vector__XXX"))
+        out.append("")
+    for name, kind, default in ctx.get("gdefs") or []:
+        out.append('BA_DEF_  "%s" %s ;' % (name, kind))
+    out.append('BA_DEF_ BO_  "VFrameFormat" ENUM  %s;' % ",".join('"%s"' % t for t in (VFF if fd else VFF[:4])))
+    for name, kind, default in ctx.get("gdefs") or []:
+        if default is not None:
+            out.append('BA_DEF_DEF_  "%s" "%s";' % (name, default))
+    out.append('BA_DEF_DEF_  "VFrameFormat" "StandardCAN";')
+    for a in ctx.get("attrs") or []:
+        if a[0] != "late":
+            if a[3] == "changed":
+                out.append('BA_ "%s" "%s";' % (a[1], a[4]))
+            if a[3] != "removed":
+                out.append('BA_ "%s" "%s";' % (a[1], a[2]))
+    fattr = ctx.get("fattr") or 0
+    for n, f in enumerate(c["frames"]):
+        name, i, ext, j = f[:4]
+        if j or n in fd or fattr == 1 or (fattr == 2 and n % 2):
+            out.append('BA_ "VFrameFormat" BO_ %d %d;' % (i | (1 << 31) if ext else i, VFF.index(vff_of(ext, j, n in fd))))
+    return ("\n".join(out) + "\n").encode("utf-8")
+
+
+def build_matrix(c, size):
+    """the matrix of a 'resolve' / 'jdec' case: its frames, and - with a context - what else a matrix carries, through the path of the
+    public API the context names"""
+    import contextlib
+    import copy as pycopy
+    import io
+    ctx = c.get("ctx") or {}
+    load = ctx.get("load") or "api"
+    if load == "dbctext":
+        import canmatrix.formats.dbc
+        with contextlib.redirect_stdout(io.StringIO()):
+            db = canmatrix.formats.dbc.load(io.BytesIO(dbc_text(c, size)), dbcImportEncoding="utf8")
+        return db
+    db = cm.CanMatrix()
+    for name, kind, default in ctx.get("gdefs") or []:
+        db.add_global_defines(name, kind)
+        if default is not None:
+            db.add_define_default(name, default)
+    for a in ctx.get("attrs") or []:
+        if a[0] == "before":
+            set_global(db, a)
+    ecus = ["E%d" % n for n in range(ctx.get("ecus") or 0)]
+    for e in ecus:
+        db.add_ecu(cm.Ecu(e))
+    fd = set(ctx.get("fd") or [])
+    fattr = ctx.get("fattr") or 0
+    if fattr:
+        db.add_frame_defines("VFrameFormat", "ENUM  " + ",".join('"%s"' % t for t in VFF))
+        db.add_define_default("VFrameFormat", "StandardCAN")
+    for n, f in enumerate(c["frames"]):
+        name, i, ext, j = f[:4]
+        fr = cm.Frame(name, arbitration_id=obtain(i, ext, opt(f, 4)), size=size, is_j1939=j)
+        fr.add_signal(cm.Signal("sig_" + name, start_bit=0, size=8, is_signed=False))
+        if n in fd:
+            fr.is_fd = True
+        if ecus:
+            fr.add_transmitter(ecus[n % len(ecus)])
+            fr.signals[0].add_receiver(ecus[-1])
+        if fattr == 1 or (fattr == 2 and n % 2):
+            fr.add_attribute("VFrameFormat", vff_of(ext, j, n in fd))
+        db.add_frame(fr)
+    for a in ctx.get("attrs") or []:
+        if a[0] == "after":
+            set_global(db, a)
+    if load == "deepcopy":
+        db.contains_j1939, db.contains_fd
+        db = pycopy.deepcopy(db)
+    elif load == "merge":
+        target = cm.CanMatrix()
+        target.merge([db])
+        for a in ctx.get("attrs") or []:
+            if a[0] == "after":
+                set_global(target, a)
+        db = target
+    elif load == "dbcdump":
+        import canmatrix.formats.dbc
+        buf = io.BytesIO()
+        with contextlib.redirect_stdout(io.StringIO()):
+            canmatrix.formats.dbc.dump(db, buf)
+            db = canmatrix.formats.dbc.load(io.BytesIO(buf.getvalue()))
+    return db
+
+
+def late_context(db, c):
+    """attributes the matrix gets just before the received identifier is decoded"""
+    for a in (c.get("ctx") or {}).get("attrs") or []:
+        if a[0] == "late":
+            set_global(db, a)
+
+
 def observe_fresh(case):
     """the observation of one case in a fresh interpreter: what the process did before cannot contribute (used while a failing case is
     minimised, so that the replay file is a failing input on its own, and when such a replay is run)"""
@@ -629,13 +830,9 @@ def observe(case):
             return {"ok": aid(a) + [a.pgn]}
         if op == "jdec":
             import canmatrix.j1939_decoder
-            db = cm.CanMatrix()
-            for f in c["frames"]:
-                name, i, ext, j = f[:4]
-                fr = cm.Frame(name, arbitration_id=obtain(i, ext, opt(f, 4)), size=8, is_j1939=j)
-                fr.add_signal(cm.Signal("sig_" + name, start_bit=0, size=8, is_signed=False))
-                db.add_frame(fr)
+            db = build_matrix(c, 8)
             run_history(db, c)
+            late_context(db, c)
             dec = canmatrix.j1939_decoder.j1939_decoder()
             # the decoder object has a history of its own: what it decoded before (with the matrix or without one)
             for h in c.get("dec") or []:
@@ -649,12 +846,7 @@ def observe(case):
             kind = "regular" if text.startswith("regular ") else "known" if text.startswith("J1939 known: ") else "other"
             return {"kind": kind, "name": text[8:] if kind == "regular" else None, "signals": sorted(values.keys()) if kind == "regular" else None}
         if op == "resolve":
-            db = cm.CanMatrix()
-            for f in c["frames"]:
-                name, i, ext, j = f[:4]
-                fr = cm.Frame(name, arbitration_id=obtain(i, ext, opt(f, 4)), size=1, is_j1939=j)
-                fr.add_signal(cm.Signal("sig_" + name, start_bit=0, size=8, is_signed=False))
-                db.add_frame(fr)
+            db = build_matrix(c, 1)
             # the matrix has a history: one of its frames carried the received identifier a moment ago (and was found under it),
             # then got its own identifier back by assignment; the received identifier is decoded after that
             if db.frames:
@@ -680,6 +872,7 @@ def observe(case):
                         pass
                     f0.arbitration_id.id, f0.arbitration_id.extended = own
             run_history(db, c)
+            late_context(db, c)
             d = db.decode(cm.ArbitrationId(c["k"][0], c["k"][1]), b"\x55")
             if not d:
                 return {"ok": None}
@@ -716,6 +909,28 @@ def features(case, impl):
         for f in c["frames"]:
             if len(f) > 4 and f[4]:
                 yield "frame id via=" + f[4]["path"]
+    if isinstance(c, dict) and c.get("ctx"):
+        ctx = c["ctx"]
+        yield "matrix context: load=" + ctx["load"]
+        hasj = any(f[3] for f in c["frames"])
+        final = {}
+        for a in ctx["attrs"]:
+            yield "matrix context: attribute %s %s (%s)" % (a[1], a[3], a[0])
+            if a[3] == "removed":
+                final.pop(a[1], None)
+            else:
+                final[a[1]] = a[2]
+        if not ctx["attrs"]:
+            yield "matrix context: no global attribute"
+        if "ProtocolType" in final and ctx["load"] != "dbcdump":
+            pt = final["ProtocolType"]
+            yield "matrix context: %s, ProtocolType %s" % ("J1939 frames" if hasj else "no J1939 frame",
+                                                          "J1939" if pt == "J1939" else "empty" if pt == "" else "another text")
+        yield "matrix context: global definitions=%d" % len(ctx["gdefs"])
+        yield "matrix context: VFrameFormat attributes " + ["from the reader/exporter only", "on all frames", "on some frames"][ctx["fattr"]]
+        yield "matrix context: ECUs=%d" % ctx["ecus"]
+        if ctx["fd"]:
+            yield "matrix context: CAN FD frames" + (" (one of them a J1939 frame)" if any(c["frames"][x][3] for x in ctx["fd"]) else "")
     if case["op"] in ("jdec", "resolve"):
         k = c["k"]
         if k[1]:
@@ -751,9 +966,26 @@ def _smaller(case):
         c = case["c"]
         fr = c["frames"]
         hist = c.get("hist") or []
+        ctx = c.get("ctx")
         for i in range(len(fr)):
             if len(fr) > 1 and not any(h[0] == "retarget" for h in hist):
-                yield keep_out({"op": case["op"], "c": dict(c, frames=fr[:i] + fr[i + 1:])})
+                less = dict(c, frames=fr[:i] + fr[i + 1:])
+                if ctx:
+                    # (the VFrameFormat attributes "on some frames" go by position: the context keeps its shape, the frames move)
+                    less["ctx"] = dict(ctx, fd=[x - (x > i) for x in ctx.get("fd") or [] if x != i])
+                yield keep_out({"op": case["op"], "c": less})
+        if ctx:
+            # a smaller context: the plain API path, fewer attributes, no definitions, no frame attributes, no ECUs, no CAN FD frames
+            if ctx.get("load") not in (None, "api"):
+                yield keep_out({"op": case["op"], "c": dict(c, ctx=dict(ctx, load="api"))})
+            for i in range(len(ctx.get("attrs") or [])):
+                yield keep_out({"op": case["op"], "c": dict(c, ctx=dict(ctx, attrs=ctx["attrs"][:i] + ctx["attrs"][i + 1:]))})
+            for i, a in enumerate(ctx.get("attrs") or []):
+                if a[3] != "set" or a[0] != "after":
+                    yield keep_out({"op": case["op"], "c": dict(c, ctx=dict(ctx, attrs=ctx["attrs"][:i] + [["after", a[1], a[2], "set", a[4]]] + ctx["attrs"][i + 1:]))})
+            for key, empty in (("gdefs", []), ("fattr", 0), ("ecus", 0), ("fd", [])):
+                if ctx.get(key):
+                    yield keep_out({"op": case["op"], "c": dict(c, ctx=dict(ctx, **{key: empty}))})
         for i in range(len(hist)):
             yield keep_out({"op": case["op"], "c": dict(c, hist=hist[:i] + hist[i + 1:])})
         dech = c.get("dec") or []
